@@ -109,6 +109,11 @@ pub struct Alpha<B: Bind> {
     pub scalars: Vec<(String, BigUint)>,
 }
 
+pub fn has(out: &CaseOut, ty: &str, op: &str, kind: &str) -> bool {
+    let key = format!("{ty}:{op}:{kind}");
+    out.viols.iter().any(|x| x.finding_key == key)
+}
+
 pub fn v(out: &mut CaseOut, ty: &str, op: &str, kind: &str, what: String, detail: Value) {
     // one witness per finding key and case keeps room (vcore caps a case at 16) for other keys
     let key = format!("{ty}:{op}:{kind}");
@@ -516,7 +521,9 @@ pub fn group_tasks<B: Bind>(t: &mut Tasks, al: &Arc<Alpha<B>>) {
             let p = pa.g;
             let extras = B::extra_mul();
             for (sn, k) in &a.scalars {
-                let expect = cv.mul(&pa.m, k);
+                // oracle: the affine law. Outside the prime subgroup (where a deviation is kept
+                // under its own key anyway) the validated ladder computes the integer multiple.
+                let expect = if pa.in_sub { cv.mul(&pa.m, k) } else { cv.mul_fast(&pa.m, k) };
                 let s = match catch(|| B::scalar(k)) {
                     Ok(s) => s,
                     Err(e) => {
@@ -532,7 +539,10 @@ pub fn group_tasks<B: Bind>(t: &mut Tasks, al: &Arc<Alpha<B>>) {
                 let kind = if pa.in_sub { "wrong-result" } else { "not-integer-multiple-outside-subgroup" };
                 let mut run = |variant: &str, f: &dyn Fn() -> B::G| {
                     out.eval(&cls, nontrivial);
-                    check_k::<B>(&mut out, "mul", kind, variant, &expect, &ctx, f);
+                    let fresh = !has(&out, ty, "mul", kind);
+                    if !check_k::<B>(&mut out, "mul", kind, variant, &expect, &ctx, f) && fresh && !pa.in_sub {
+                        assert!(cv.mul(&pa.m, k) == expect, "ladder and affine law disagree on a blaming verdict");
+                    }
                 };
                 run("P * k", &|| p * s);
                 run("P * &k", &|| p * &s);
@@ -693,9 +703,15 @@ where
                 let Some(y) = affs[j] else { continue };
                 let same = pa.m == pb.m;
                 out.eval(if same { "affine-eq:same-point" } else { "affine-eq:different" }, !cv.is_id(&pa.m) && !cv.is_id(&pb.m));
-                match catch(|| ((x == y), bool::from(x.ct_eq(&y)), B::a_to_m(&B::A::conditional_select(&x, &y, Choice::from(0))), B::a_to_m(&B::A::conditional_select(&x, &y, Choice::from(1))))) {
+                match catch(|| {
+                    let sel1 = B::A::conditional_select(&x, &y, Choice::from(1));
+                    ((x == y), bool::from(x.ct_eq(&y)), B::a_to_m(&B::A::conditional_select(&x, &y, Choice::from(0))), B::a_to_m(&sel1), B::to_m(&B::a_to_curve(&sel1)))
+                }) {
                     Err(e) => v(&mut out, ty, "affine-eq", "panic", format!("panicked: {e}"), json!({"P": pa.name, "Q": pb.name})),
-                    Ok((e1, e2, s0, s1)) => {
+                    Ok((e1, e2, s0, s1, s1c)) => {
+                        if s1c != pb.m {
+                            v(&mut out, ty, "affine-conditional_select", "wrong-result", "the selected affine value converts to a different projective point".into(), json!({"P": pa.name, "Q": pb.name}));
+                        }
                         if e1 != same || e2 != same {
                             v(&mut out, ty, "affine-eq", "wrong-result", format!("== gives {e1}, ct_eq gives {e2}, model says {same}"), json!({"P": pa.name, "Q": pb.name, "P_model": pa.m.json(), "Q_model": pb.m.json()}));
                         }
@@ -736,7 +752,7 @@ where
                     Ok(None) => {}
                     Ok(Some(m)) => {
                         out.eval("affine-mul", !cv.is_id(&pa.m) && !k.is_zero());
-                        let expect = cv.mul(&pa.m, k);
+                        let expect = if pa.in_sub { cv.mul(&pa.m, k) } else { cv.mul_fast(&pa.m, k) };
                         if m != expect {
                             v(&mut out, ty, "affine-mul", if pa.in_sub { "wrong-result" } else { "not-integer-multiple-outside-subgroup" }, "Pa * k disagrees with the model".into(), json!({"P": pa.name, "scalar": sn, "k": big::hexs(k), "got": m.json(), "expected": expect.json()}));
                         }
@@ -798,8 +814,11 @@ pub fn judge<G>(out: &mut CaseOut, ty: &str, c: &Codec<G>, cv: &MCurve, input: &
     // a verdict that rests on subgroup membership is re-derived with the affine reference law
     // before it can blame the subject
     let confirm_membership = |out: &mut CaseOut| {
+        static BUDGET: std::sync::atomic::AtomicUsize = std::sync::atomic::AtomicUsize::new(0);
         if let Dec::Ok(p) = &spec {
-            if c.promises_subgroup {
+            // (the ladder is validated against the reference law at start-up; on top of that the
+            // first 48 blaming verdicts of a run are re-derived)
+            if c.promises_subgroup && BUDGET.fetch_add(1, std::sync::atomic::Ordering::Relaxed) < 48 {
                 assert_eq!(cv.in_subgroup(p), cv.in_subgroup_ref(p), "ladder and reference law disagree on subgroup membership");
                 out.counter("membership-verdicts-reconfirmed", 1);
             }
@@ -817,6 +836,9 @@ pub fn judge<G>(out: &mut CaseOut, ty: &str, c: &Codec<G>, cv: &MCurve, input: &
         Ok(None) => {
             out.eval(&format!("{ty}:{}:reject[{coarse}]", c.name), true);
             if should_accept {
+                if has(out, ty, c.name, "rejects-valid") {
+                    return;
+                }
                 confirm_membership(out);
                 v(out, ty, c.name, "rejects-valid", "checked decoder rejects a canonical encoding of a valid element".into(), detail(json!({})));
             }
@@ -824,6 +846,9 @@ pub fn judge<G>(out: &mut CaseOut, ty: &str, c: &Codec<G>, cv: &MCurve, input: &
         Ok(Some((m, re))) => {
             out.eval(&format!("{ty}:{}:accept[{coarse}]", c.name), true);
             if !should_accept {
+                if has(out, ty, c.name, &format!("accepts-{why}")) {
+                    return;
+                }
                 confirm_membership(out);
                 v(out, ty, c.name, &format!("accepts-{why}"), format!("checked decoder accepts a {why} encoding"), detail(json!({"decoded": m.json(), "reencoded": hex(&re)})));
                 return;
